@@ -48,8 +48,15 @@ def _cuts_to_sizes(cuts):
 
 @st.composite
 def strategy_impl(draw, tier):
-    kind = draw(st.sampled_from(["stencil", "stencil", "cumsum", "reduce", "ufunc", "ufunc", "faces-scalar", "faces-vector"]))
-    if kind == "stencil":
+    kind = draw(st.sampled_from(["stencil", "stencil", "stencil-weighted", "cumsum", "reduce", "ufunc", "ufunc", "faces-scalar", "faces-vector"]))
+    if kind == "stencil-weighted":
+        # diff / interp / min / max with metric_weighted, optional keep_coords, on an input that may carry the dataset's coordinates
+        sub = draw(C09.strategy_impl(tier))
+        sub["wop"] = draw(st.sampled_from(["diff", "interp", "min", "max"]))
+        sub["keep_coords"] = draw(st.sampled_from([None, True, False]))
+        sub["carry_coords"] = draw(st.booleans())
+        dims = {d: s for d, s in zip(sub["dims"], np.shape(sub["values"]))}
+    elif kind == "stencil":
         sub = draw(C01.strategy_impl(tier))
         dims = {d: s for d, s in zip(sub["dims"], np.shape(sub["values"]))}
     elif kind == "cumsum":
@@ -248,6 +255,10 @@ def targets_of(sub):
 def run_stencil(sub, chunks, scheduler, classes, ctx):
     grid = simple_grid(sub)
     da = build.data_array(sub["values"], sub["dims"], name="phi")
+    if sub.get("carry_coords"):
+        ds = build.make_dataset(sub["axes"], [(d, s) for d, s in zip(sub["dims"], np.shape(sub["values"])) if d.startswith("e")])
+        da = da.assign_coords({d: ds[d] for d in da.dims if d in ds.coords})
+        classes.append("input-carries-coords")
     kw = C01.call_kwargs(sub, sub["to"])
     ax = C01.spell_axis(sub["op_axes"], sub["axis_spelling"])
     fn = getattr(grid, sub["op"])
@@ -257,6 +268,26 @@ def run_stencil(sub, chunks, scheduler, classes, ctx):
     kw2 = dict(kw, boundary="fill", fill_value=123.0) if kw.get("boundary") != "fill" or kw.get("fill_value") != 123.0 else dict(kw, boundary="extend")
     return lazy_vs_eager(lambda x: fn(x, ax, **kw), [da], chunks, scheduler, operated_inner_outer_chunked(sub, chunks, targets), f"Grid.{sub['op']}",
                          sibling=lambda x: fn(x, ax, **kw2))
+
+
+def run_wstencil(sub, chunks, scheduler, classes, ctx):
+    grid = simple_grid(sub, with_metrics=True)
+    da = build.data_array(sub["values"], sub["dims"], name="phi")
+    if sub.get("carry_coords"):
+        shape = np.shape(sub["values"])
+        ds = build.make_dataset(sub["axes"], [(d, s) for d, s in zip(sub["dims"], shape) if d.startswith("e")])
+        da = da.assign_coords({d: ds[d] for d in da.dims if d in ds.coords})
+        classes.append("input-carries-coords")
+    targets = targets_of(sub)
+    kw = dict(C09.bkwargs(sub), **C09.to_kw(sub, targets, sub["to"] is not None))
+    if sub.get("keep_coords") is not None:
+        kw["keep_coords"] = sub["keep_coords"]
+    ax = C09.spell_axis(sub["op_axes"], sub["axis_spelling"])
+    fn = getattr(grid, sub["wop"])
+    mw = {n: (n,) for n in sub["op_axes"]}
+    classes.append(f"weighted:{sub['wop']}")
+    return lazy_vs_eager(lambda x: fn(x, ax, metric_weighted=mw, **kw), [da], chunks, scheduler,
+                         operated_inner_outer_chunked(sub, chunks, targets), f"Grid.{sub['wop']}(metric_weighted)")
 
 
 def run_cumsum(sub, chunks, scheduler, classes, ctx):
@@ -416,5 +447,5 @@ def run_faces_vector(sub, chunks, scheduler, classes, ctx):
     return "ok" if (r1 == "ok" and r2 == "ok") else (r1 or r2)
 
 
-RUNNERS = {"stencil": run_stencil, "cumsum": run_cumsum, "reduce": run_reduce, "ufunc": run_ufunc,
+RUNNERS = {"stencil": run_stencil, "stencil-weighted": run_wstencil, "cumsum": run_cumsum, "reduce": run_reduce, "ufunc": run_ufunc,
            "faces-scalar": run_faces_scalar, "faces-vector": run_faces_vector}
